@@ -311,3 +311,17 @@ package spec
 
 //@ func (t *SymbolTable) Productions() []*grammar.Production
 //@   requires tableOK(t)
+
+// ---- lists of alternatives as sets of grammar strings (C01) ----
+// has(s, α): α occurs in s (up to String.Equal); sameSet(a, b): the two lists denote the same set of strings.
+//@ spec func has(s Strings, α grammar.String[grammar.Symbol]) bool = exists k int :: 0 <= k && k < len(s) && strEq(s[k], α)
+//@ spec func subSet(a Strings, b Strings) bool = forall k int :: {a[k]} 0 <= k && k < len(a) ==> has(b, a[k])
+
+//@ func (s Strings) Contains(α grammar.String[grammar.Symbol]) bool
+//@   loop[0] invariant forall k int :: {s[k]} 0 <= k && k < __i0 ==> !strEq(s[k], α)
+//@   ensures @member result == has(s, α)
+
+//@ func eqStrings(lhs Strings, rhs Strings) bool
+//@   loop[0] invariant forall k int :: {lhs[k]} 0 <= k && k < __i0 ==> has(rhs, lhs[k])
+//@   loop[1] invariant subSet(lhs, rhs) && (forall k int :: {rhs[k]} 0 <= k && k < __i1 ==> has(lhs, rhs[k]))
+//@   ensures @set-equality result == (subSet(lhs, rhs) && subSet(rhs, lhs))
